@@ -30,6 +30,7 @@ func runC13(ctx *Ctx) {
 	ruleIndexBounds(ctx, "C13-R4", []string{"internal/packed.Unpack", "internal/packed.(*Reader).ReadWord"})
 	ruleNarrowingFits(ctx, "C13-R5", []string{"internal/packed.Pack"})
 	ruleCountByteEOF(ctx, "C13-R3e")
+	rulePackNoAlias(ctx, "C13-R6")
 	r := ctx.Rep
 	r.Floor("C13-R5", 2)
 	r.Floor("C13-R1", 1)
@@ -81,6 +82,10 @@ func ruleShortCopy(ctx *Ctx, rule string) {
 							}
 							if strings.Contains(ssaq.RenderValue(f, other), "len(allocWords(") {
 								compared = true
+							} else if runBytes(call.Call.Args[0], other) {
+								// 8 * k where the destination is the k words
+								// allocWords(.., k) has just appended
+								compared = true
 							} else {
 								unit = ssaq.RenderValue(f, other)
 							}
@@ -103,6 +108,37 @@ func ruleShortCopy(ctx *Ctx, rule string) {
 	if n == 0 {
 		r.Violation(rule, "internal/packed.Unpack | copy of a literal run is checked for shortness", q.Pos(f.Pos()), "no copy of a literal run found")
 	}
+}
+
+// runBytes: dst is a window x[start:] on x = allocWords(old, k) whose start is
+// the length of old, and v is k * 8 (the byte length of the k appended words).
+func runBytes(dst, v ssa.Value) bool {
+	sl, ok := dst.(*ssa.Slice)
+	if !ok || sl.Low == nil {
+		return false
+	}
+	ac, ok := sl.X.(*ssa.Call)
+	if !ok || ssaq.StaticCalleeName(ac) != "internal/packed.allocWords" || len(ac.Call.Args) != 2 {
+		return false
+	}
+	// start = len(old) taken before the append
+	lc, ok := stripConv(sl.Low).(*ssa.Call)
+	if !ok {
+		return false
+	}
+	if bi, isB := lc.Call.Value.(*ssa.Builtin); !isB || bi.Name() != "len" || lc.Call.Args[0] != ac.Call.Args[0] {
+		return false
+	}
+	mul, ok := stripConv(v).(*ssa.BinOp)
+	if !ok || mul.Op != token.MUL {
+		return false
+	}
+	k, w := mul.X, mul.Y
+	if c, isC := ssaq.ConstInt(k); isC && c == 8 {
+		k, w = w, k
+	}
+	c, isC := ssaq.ConstInt(w)
+	return isC && c == 8 && stripConv(k) == stripConv(ac.Call.Args[1])
 }
 
 func ruleAmplification(ctx *Ctx, rule string) {
@@ -156,7 +192,28 @@ func ruleAmplification(ctx *Ctx, rule string) {
 									}
 								}
 							}
-							if dec || isByte(st.Val) {
+							// a helper that did not exist on the reference tree and
+							// returns, on every path, one input byte or a constant
+							// of at most 255
+							viaHelper := false
+							if hc, isCall := st.Val.(*ssa.Call); isCall {
+								if g := hc.Call.StaticCallee(); g != nil && ssaq.IsNew(g) && len(g.Blocks) > 0 {
+									viaHelper = true
+									for _, hb := range g.Blocks {
+										if ret, isRet := hb.Instrs[len(hb.Instrs)-1].(*ssa.Return); isRet {
+											if len(ret.Results) != 1 {
+												viaHelper = false
+												continue
+											}
+											c, isC := ssaq.ConstInt(ret.Results[0])
+											if !(isC && c >= 0 && c <= 255) && !isByte(ret.Results[0]) {
+												viaHelper = false
+											}
+										}
+									}
+								}
+							}
+							if dec || isByte(st.Val) || viaHelper {
 								r.Ok(rule, key, pos, "set from one input byte or decremented")
 							} else {
 								r.Violation(rule, key, pos, "the pending run length is set to "+ssaq.RenderValue(f, st.Val)+", not to a single input byte")
@@ -219,11 +276,37 @@ func rulePackedSiblings(ctx *Ctx, rule string) {
 		}
 	}
 	// Missing bytes are reported as ErrUnexpectedEOF.
-	specs := []anchorSpec{
-		{"internal/packed.Unpack", "internal/packed.allocWords", 2, []string{"", "int(phi[0:int])"}, []string{"0:int != len(phi)"}, "zero run: count byte present before it is read"},
-		{"internal/packed.Unpack", "internal/packed.allocWords", 3, []string{"", "int(phi[0:int])"}, []string{"0:int != len(phi)"}, "literal run: count byte present before it is read"},
+	// every run whose length comes from the input (a zero run, a literal run, or
+	// one call serving both) is allocated only after the count byte was found
+	// to be present
+	if uf := q.Func("internal/packed.Unpack"); uf != nil {
+		runs := 0
+		for _, a := range ssaq.Anchors(uf) {
+			if a.Callee != "internal/packed.allocWords" || len(a.Args) < 2 || strings.HasSuffix(a.Args[1], ":int") {
+				continue // constant word count
+			}
+			runs++
+			key := fmt.Sprintf("internal/packed.Unpack | allocWords #%d: count byte present before it is read", a.Ordinal)
+			pos := q.Pos(ssaq.InstrPos(a.Instr))
+			ok := false
+			for _, at := range a.Atoms {
+				if matchPattern(at, "0:int != len(§)") || matchPattern(at, "0:int < len(§)") {
+					ok = true
+				}
+			}
+			switch {
+			case !matchPattern(a.Args[1], "int(§[0:int])"):
+				r.Violation(rule, key, pos, "the run length "+a.Args[1]+" is not the single count byte that follows the tag")
+			case !ok:
+				r.Violation(rule, key, pos, "the count byte is read without a dominating test that the input is not exhausted: a stream cut after a 0x00/0xff tag is not reported as io.ErrUnexpectedEOF (established: "+strings.Join(a.Atoms, " && ")+")")
+			default:
+				r.Ok(rule, key, pos, "allocated after the test that the count byte is present")
+			}
+		}
+		if runs == 0 {
+			r.Violation(rule, "internal/packed.Unpack | runs sized from a count byte", q.Pos(uf.Pos()), "Unpack no longer sizes any run from a count byte")
+		}
 	}
-	ruleAnchorSpecs(ctx, rule, specs)
 	for _, name := range []string{"internal/packed.Unpack", "internal/packed.(*Reader).ReadWord"} {
 		f := q.Func(name)
 		if f == nil {
@@ -393,6 +476,9 @@ func ruleIndexBounds(ctx *Ctx, rule string, funcs []string) {
 					continue
 				}
 				m, okM := maxOf(idx, 0)
+				if !okM {
+					m, okM = loopCounterMax(idx, in)
+				}
 				baseS := ssaq.RenderValue(f, base)
 				idxS := ssaq.RenderValue(f, idx)
 				direct := false
@@ -432,10 +518,45 @@ func ruleIndexBounds(ctx *Ctx, rule string, funcs []string) {
 	}
 }
 
+// loopCounterMax: idx is the counter of "for i := c; i < K; i++" (K constant),
+// used at an instruction inside the loop body: its value is at most K-1.
+func loopCounterMax(idx ssa.Value, at ssa.Instruction) (int64, bool) {
+	phi, ok := stripConv(idx).(*ssa.Phi)
+	if !ok || len(phi.Edges) != 2 {
+		return 0, false
+	}
+	step, init := false, false
+	for _, e := range phi.Edges {
+		if bo, isBin := e.(*ssa.BinOp); isBin && bo.Op == token.ADD && bo.X == ssa.Value(phi) {
+			if c, isC := ssaq.ConstInt(bo.Y); isC && c == 1 {
+				step = true
+				continue
+			}
+		}
+		if c, isC := ssaq.ConstInt(e); isC && c >= 0 {
+			init = true
+		}
+	}
+	head := phi.Block()
+	iff, isIf := head.Instrs[len(head.Instrs)-1].(*ssa.If)
+	if !step || !init || !isIf {
+		return 0, false
+	}
+	lo, hi, ok := strictLess(iff.Cond, true)
+	if !ok || lo != ssa.Value(phi) {
+		return 0, false
+	}
+	k, isC := ssaq.ConstInt(hi)
+	if !isC || !(head.Succs[0] == at.Block() || head.Succs[0].Dominates(at.Block())) {
+		return 0, false
+	}
+	return k - 1, true
+}
+
 func isRangeIndex(idx ssa.Value) bool {
 	switch x := idx.(type) {
 	case *ssa.Phi:
-		return strings.HasPrefix(x.Comment, "rangeindex") || x.Comment == "i"
+		return strings.HasPrefix(x.Comment, "rangeindex") // the compiler's own index of "for i := range s"
 	case *ssa.Extract:
 		_, ok := x.Tuple.(*ssa.Next)
 		return ok
